@@ -50,6 +50,7 @@ CONFIGS = {
     "C15": [("muzzle below, barrel above", dict(MuzzleSide=-1, BarrelAbove=True), False),
             ("muzzle below, barrel below", dict(MuzzleSide=-1, BarrelAbove=False), False),
             ("muzzle on/above", dict(MuzzleSide=1, BarrelAbove=True), False),
+            ("muzzle on/above, barrel below", dict(MuzzleSide=1, BarrelAbove=False), False),
             ("subsonic start, plain", dict(StartSup=0, Extra=False, MuzzleSide=-1), False)],
 }
 THOROUGH_EXTRA = {
@@ -103,6 +104,7 @@ GEN_SETS = [
     dict(MaxRange=8, RecStep=4, TimeStep=2, Adv="{0, 1, 2}", WindEnds="<<>>", MuzzleSide=-1, BarrelAbove=True, StartSup=1,
          Extra=True, Limits='{"Drop"}', MaxStall=3),
     dict(MaxRange=5, RecStep=5, MinStep=2, Adv="{1, 2, 4}", WindEnds="<<0, 0>>", MuzzleSide=-1, BarrelAbove=True, StartSup=1, Extra=False),
+    dict(MaxRange=6, RecStep=2, Adv="{1, 2}", WindEnds="<<1, 4>>", MuzzleSide=1, BarrelAbove=False, StartSup=1, Extra=True),
 ]
 
 
